@@ -1,6 +1,6 @@
 (* C02 — histories: for every history of cluster creations, deletions, re-creations, policy changes,
-   time steps and requests (without a server name moving between two live clusters), every request of
-   the model is decided by the incarnation that owns its host at that moment. *)
+   server names moving between live clusters, time steps and requests, every request of the model is
+   decided by the incarnation that owns its host at that moment. *)
 From KG Require Import Prelude C02_Model C02_HistModel C02_HistSpec.
 Open Scope Z_scope.
 Open Scope string_scope.
@@ -53,37 +53,31 @@ Proof. unfold eset, edel. intros [H|H]; [inversion H; auto|]. apply filter_In in
 Lemma in_edel q e x : In x (edel q e) -> In x e.
 Proof. unfold edel. intros H. apply filter_In in H. tauto. Qed.
 
-(* ---- the invariant: every cache belongs to the incarnation that owns its host now, and every cached
-        "allow" is an answer that incarnation gave *)
+Lemma cget_In k v l : cget k l = Some v -> exists k', In (k', v) l /\ ckey_eqb k' k = true.
+Proof.
+  induction l as [|[x y] r IH]; [discriminate|]. cbn [cget].
+  destruct (ckey_eqb x k) eqn:E; intros H.
+  - inversion H; subst y. exists x. split; [left; reflexivity|exact E].
+  - destruct (IH H) as [k' [A B]]. exists k'. split; [right; exact A|exact B].
+Qed.
+Lemma ckey_eqb_eq a b : ckey_eqb a b = true -> a = b.
+Proof.
+  destruct a, b. unfold ckey_eqb. cbn. intros H. apply Bool.andb_true_iff in H. destruct H as [H1 H2].
+  apply String.eqb_eq in H1. apply Z.eqb_eq in H2. congruence.
+Qed.
+Lemma in_cset k v l k' v' : In (k', v') (cset k v l) -> (k' = k /\ v' = v) \/ In (k', v') l.
+Proof. unfold cset. intros [H|H]; [inversion H; auto|]. apply filter_In in H. tauto. Qed.
+
+(* ---- the invariant: every cached "allow" of the cache of (host, incarnation) is an answer that
+        incarnation gave, and it expires attl after it was given *)
 Definition inv (attl : Z) (s : hstate) (gs : list grant) : Prop :=
-  forall h wid e, In (h, (wid, e)) (s_caches s) ->
-    (exists c p, aget h (w_keys (s_world s)) = Some c /\ aget c (w_live (s_world s)) = Some (wid, p)) /\
-    (forall q exp, In (q, (true, exp)) e -> exists t0, In (wid, q, t0) gs /\ exp = t0 + attl).
+  forall h wid e, In ((h, wid), e) (s_caches s) ->
+    forall q exp, In (q, (true, exp)) e -> exists t0, In (wid, q, t0) gs /\ exp = t0 + attl.
 
 Lemma inv_more attl s gs extra : inv attl s gs -> inv attl s (extra ++ gs).
 Proof.
-  intros H h wid e Hin. destruct (H h wid e Hin) as [A B]. split; [exact A|].
-  intros q exp Hq. destruct (B q exp Hq) as [t0 [Hg He]]. exists t0. split; [apply in_or_app; right; exact Hg|exact He].
-Qed.
-
-Definition not_move (o : hop) : bool := match o with HMove _ _ _ => false | _ => true end.
-
-Lemma add_alias_keeps c ks a h v : aget h ks = Some v -> aget h (add_alias c ks a) = Some v.
-Proof.
-  intros H. unfold add_alias. destruct (aget a ks) eqn:E; [exact H|].
-  cbn [aget]. destruct (String.eqb_spec a h) as [->|_]; [congruence|exact H].
-Qed.
-Lemma fold_alias_keeps c al ks h v : aget h ks = Some v -> aget h (fold_left (add_alias c) al ks) = Some v.
-Proof. revert ks. induction al as [|a al IH]; intros ks H; [exact H|]. cbn [fold_left]. apply IH. apply add_alias_keeps. exact H. Qed.
-
-Lemma aget_policy_map c p' k (l : list (string * (Z * policy))) id p :
-  aget k l = Some (id, p) ->
-  exists p2, aget k (map (fun kv => if String.eqb (fst kv) c then (fst kv, (fst (snd kv), p')) else kv) l) = Some (id, p2).
-Proof.
-  induction l as [|[x [i q]] r IH]; [discriminate|]. cbn [aget map fst snd].
-  destruct (String.eqb_spec x k) as [->|Hne]; intros H.
-  - inversion H; subst i q. destruct (String.eqb k c); cbn [aget]; rewrite String.eqb_refl; eauto.
-  - destruct (String.eqb x c); cbn [aget]; destruct (String.eqb_spec x k); try contradiction; apply IH; exact H.
+  intros H h wid e Hin q exp Hq. destruct (H h wid e Hin q exp Hq) as [t0 [Hg He]].
+  exists t0. split; [apply in_or_app; right; exact Hg|exact He].
 Qed.
 
 (* ---- one step *)
@@ -96,74 +90,54 @@ Proof.
   destruct (match eget (requestor, imp) _ with Some (allowed, exp) => _ | None => None end); reflexivity.
 Qed.
 
+Lemma entries_of attl s gs host id :
+  inv attl s gs ->
+  forall q exp, In (q, (true, exp)) (match cget (host, id) (s_caches s) with Some e => e | None => [] end) ->
+  exists t0, In (id, q, t0) gs /\ exp = t0 + attl.
+Proof.
+  intros Hinv q exp Hq. destruct (cget (host, id) (s_caches s)) as [e|] eqn:C; [|destruct Hq].
+  destruct (cget_In _ _ _ C) as [[h' w'] [Hin Hk]]. apply ckey_eqb_eq in Hk. inversion Hk; subst h' w'.
+  apply (Hinv host id e Hin q exp Hq).
+Qed.
+
 Lemma step_inv attl dttl s gs o :
-  not_move o = true -> inv attl s gs ->
+  inv attl s gs ->
   inv attl (fst (hstep attl dttl s o)) (new_grants (w_now (s_world s)) (snd (hstep attl dttl s o)) ++ gs).
 Proof.
-  intros Hm Hinv. destruct o as [c al p|c|c p|a f t|dt|host requestor imp]; try discriminate.
-  - (* create *)
-    cbn [hstep wstep]. destruct (aget c (w_live (s_world s))) eqn:L; [cbn; exact Hinv|].
-    destruct (aget c (w_keys (s_world s))) eqn:K; [cbn; exact Hinv|]. cbn [fst snd new_grants h_sar flat_map app s_caches s_world w_keys w_live].
-    intros h wid e Hin. cbn [s_world s_caches w_live w_keys w_now] in *. destruct (Hinv h wid e Hin) as [[c' [p' [Hk Hl]]] B]. split; [|exact B].
-    exists c', p'. split.
-    + apply fold_alias_keeps. cbn [aget]. destruct (String.eqb_spec c h) as [->|_]; [congruence|exact Hk].
-    + cbn [aget]. destruct (String.eqb_spec c c') as [->|_]; [congruence|exact Hl].
-  - (* delete *)
-    cbn [hstep wstep]. destruct (aget c (w_live (s_world s))) as [[id pc]|] eqn:L; [|cbn; exact Hinv].
-    cbn [fst snd new_grants h_sar flat_map app s_caches s_world w_keys w_live].
-    intros h wid e Hin. cbn [s_world s_caches w_live w_keys w_now] in *. apply filter_In in Hin. destruct Hin as [Hin Hw]. cbn [fst snd] in Hw.
-    apply Bool.negb_true_iff in Hw. apply Z.eqb_neq in Hw.
-    destruct (Hinv h wid e Hin) as [[c' [p' [Hk Hl]]] B]. split; [|exact B].
-    assert (Hcc : c' <> c) by (intros ->; rewrite L in Hl; inversion Hl; congruence).
-    exists c', p'. split.
-    + apply aget_filter_keep; [exact Hk|]. cbn [snd]. apply Bool.negb_true_iff. apply String.eqb_neq. exact Hcc.
-    + rewrite aget_adel_other by exact Hcc. exact Hl.
-  - (* policy *)
-    cbn [hstep wstep]. destruct (aget c (w_live (s_world s))) as [[id pc]|] eqn:L; [|cbn; exact Hinv].
-    cbn [fst snd new_grants h_sar flat_map app s_caches s_world w_keys w_live].
-    intros h wid e Hin. cbn [s_world s_caches w_live w_keys w_now] in *. destruct (Hinv h wid e Hin) as [[c' [p' [Hk Hl]]] B]. split; [|exact B].
-    destruct (aget_policy_map c p _ _ _ _ Hl) as [p2 H2]. exists c', p2. split; [exact Hk|exact H2].
-  - (* advance *)
-    cbn [hstep wstep fst snd new_grants h_sar flat_map app]. exact Hinv.
+  intros Hinv.
+  assert (Hsame : forall w' done, inv attl (mkHState w' (s_caches s)) (new_grants (w_now (s_world s)) (mkHObs done 0 [] []) ++ gs))
+    by (intros w' done h wid e Hin; apply (Hinv h wid e Hin)).
+  destruct o as [c al p|c|c p|a f t|dt|host requestor imp]; cbn [hstep];
+    try (destruct (wstep (s_world s) _) as [w' done]; apply Hsame).
+  - (* delete: the caches of the stopped incarnation are dropped *)
+    destruct (wstep (s_world s) (HDelete c)) as [w' done]. cbn [fst snd].
+    intros h wid e Hin. cbn [s_caches] in Hin.
+    destruct (aget c (w_live (s_world s))) as [[id pc]|]; [apply filter_In in Hin; destruct Hin as [Hin _]|];
+      apply (Hinv h wid e Hin).
   - (* request *)
-    cbn [hstep]. unfold do_request.
-    destruct (owner (s_world s) host) as [[id p]|] eqn:O; [|cbn; exact Hinv].
+    unfold do_request. destruct (owner (s_world s) host) as [[id p]|] eqn:O; [|cbn; exact Hinv].
     destruct (String.eqb imp ""); [cbn; exact Hinv|].
     set (q := (requestor, imp)).
-    set (ce := match aget host (s_caches s) with Some ce => ce | None => (id, []) end).
-    assert (Hce : (exists c' p', aget host (w_keys (s_world s)) = Some c' /\ aget c' (w_live (s_world s)) = Some (fst ce, p')) /\
-                  (forall q' exp, In (q', (true, exp)) (snd ce) -> exists t0, In (fst ce, q', t0) gs /\ exp = t0 + attl)).
-    { unfold ce. destruct (aget host (s_caches s)) as [[wid e]|] eqn:C.
-      - apply (Hinv host wid e (aget_In _ _ _ C)).
-      - cbn [fst snd]. split; [|intros ? ? []]. unfold owner in O.
-        destruct (aget host (w_keys (s_world s))) as [c'|]; [|discriminate]. exists c', p. auto. }
-    destruct Hce as [Hown Hent].
-    destruct (match eget q (snd ce) with Some (allowed, exp) => if Z.leb (w_now (s_world s)) exp then Some allowed else None | None => None end)
-      as [allowed|] eqn:Hit.
-    + (* served from the cache *)
-      assert (G : new_grants (w_now (s_world s)) (if allowed then mkHObs true 200 [(id, [imp])] [] else mkHObs true 403 [] []) = [])
-        by (destruct allowed; reflexivity).
-      cbn [fst snd]. rewrite G. cbn [app].
-      intros h wid e Hin. cbn [s_caches s_world] in *. apply in_aset in Hin. destruct Hin as [[-> Hv]|Hin]; [|apply (Hinv h wid e Hin)].
-      destruct ce as [w0 e0]. inversion Hv; subst wid e. cbn [fst snd] in *. split; [exact Hown|exact Hent].
-    + set (a := answer_of p q).
-      assert (Hstep : forall e' b, (forall q' exp, In (q', (true, exp)) e' ->
-                         exists t0, In (fst ce, q', t0) (new_grants (w_now (s_world s)) b ++ gs) /\ exp = t0 + attl) ->
-                inv attl (mkHState (s_world s) (aset host (fst ce, e') (s_caches s))) (new_grants (w_now (s_world s)) b ++ gs)).
-      { intros e' b He' h wid e Hin. cbn [s_caches s_world] in *. apply in_aset in Hin. destruct Hin as [[-> Hv]|Hin].
-        - inversion Hv; subst wid e. split; [exact Hown|exact He'].
-        - apply (inv_more attl s gs _ Hinv h wid e Hin). }
-      assert (Hid : fst ce = id).
-      { destruct Hown as [c' [p' [Hk Hl]]]. unfold owner in O. rewrite Hk, Hl in O. inversion O. reflexivity. }
-      destruct a eqn:Ea; cbn [fst snd]; apply Hstep.
-      * intros q' exp Hq. apply in_eset in Hq. destruct Hq as [[-> Hv]|Hq].
-        -- inversion Hv; subst exp. exists (w_now (s_world s)). split; [|reflexivity].
-           cbn [new_grants h_sar flat_map app fst snd]. left. rewrite Hid. reflexivity.
-        -- destruct (Hent q' exp Hq) as [t0 [Hg He]]. exists t0. split; [apply in_or_app; right; exact Hg|exact He].
-      * intros q' exp Hq. apply in_eset in Hq. destruct Hq as [[_ Hv]|Hq]; [discriminate|].
-        destruct (Hent q' exp Hq) as [t0 [Hg He]]. exists t0. split; [apply in_or_app; right; exact Hg|exact He].
-      * intros q' exp Hq. apply in_edel in Hq.
-        destruct (Hent q' exp Hq) as [t0 [Hg He]]. exists t0. split; [apply in_or_app; right; exact Hg|exact He].
+    pose proof (entries_of attl s gs host id Hinv) as Hent.
+    set (e0 := match cget (host, id) (s_caches s) with Some e => e | None => [] end) in *.
+    assert (Hstep : forall e' b, (forall q' exp, In (q', (true, exp)) e' ->
+                       exists t0, In (id, q', t0) (new_grants (w_now (s_world s)) b ++ gs) /\ exp = t0 + attl) ->
+              inv attl (mkHState (s_world s) (cset (host, id) e' (s_caches s))) (new_grants (w_now (s_world s)) b ++ gs)).
+    { intros e' b He' h wid e Hin. cbn [s_caches] in Hin. apply in_cset in Hin. destruct Hin as [[Hk ->]|Hin].
+      - inversion Hk; subst h wid. exact He'.
+      - apply (inv_more attl s gs _ Hinv h wid e Hin). }
+    assert (Hold : forall b q' exp, In (q', (true, exp)) e0 ->
+              exists t0, In (id, q', t0) (new_grants (w_now (s_world s)) b ++ gs) /\ exp = t0 + attl).
+    { intros b q' exp Hq. destruct (Hent q' exp Hq) as [t0 [Hg He]]. exists t0. split; [apply in_or_app; right; exact Hg|exact He]. }
+    destruct (match eget q e0 with Some (allowed, exp) => if Z.leb (w_now (s_world s)) exp then Some allowed else None | None => None end)
+      as [allowed|] eqn:Hit; cbn [fst snd].
+    + apply Hstep. apply Hold.
+    + destruct (answer_of p q) eqn:Ea; apply Hstep.
+      * intros q' exp Hq. apply in_eset in Hq. destruct Hq as [[-> Hv]|Hq]; [|apply Hold; exact Hq].
+        inversion Hv; subst exp. exists (w_now (s_world s)). split; [|reflexivity].
+        cbn [new_grants h_sar flat_map app fst snd]. left. reflexivity.
+      * intros q' exp Hq. apply in_eset in Hq. destruct Hq as [[_ Hv]|Hq]; [discriminate|apply Hold; exact Hq].
+      * intros q' exp Hq. apply in_edel in Hq. apply Hold. exact Hq.
 Qed.
 
 Lemma step_req_ok attl dttl s gs host requestor imp :
@@ -175,18 +149,15 @@ Proof.
   destruct (String.eqb imp "") eqn:Ei.
   { cbn [snd]. unfold fwd_is, fwd_none. cbn [h_fwd]. rewrite Z.eqb_refl, String.eqb_refl. reflexivity. }
   set (q := (requestor, imp)).
-  set (ce := match aget host (s_caches s) with Some ce => ce | None => (id, []) end).
-  assert (Hent : forall exp, In (q, (true, exp)) (snd ce) -> exists t0, In (id, q, t0) gs /\ exp = t0 + attl).
-  { unfold ce. destruct (aget host (s_caches s)) as [[wid e]|] eqn:C; [|intros ? []].
-    destruct (Hinv host wid e (aget_In _ _ _ C)) as [[c' [p' [Hk Hl]]] B]. cbn [snd].
-    unfold owner in O. rewrite Hk, Hl in O. inversion O; subst wid p'. intros exp Hq. apply (B q exp Hq). }
+  pose proof (entries_of attl s gs host id Hinv) as Hent.
+  set (e0 := match cget (host, id) (s_caches s) with Some e => e | None => [] end) in *.
   assert (Hfwd : forall sar, fwd_is (mkHObs true 200 [(id, [imp])] sar) id imp = true)
     by (intros; unfold fwd_is; cbn [h_fwd]; rewrite Z.eqb_refl, String.eqb_refl; reflexivity).
-  destruct (eget q (snd ce)) as [[allowed exp]|] eqn:G.
+  destruct (eget q e0) as [[allowed exp]|] eqn:G.
   - destruct (Z.leb (w_now (s_world s)) exp) eqn:T.
     + destruct allowed; cbn [snd].
       * (* a cached allow: justified by a grant of the current owner *)
-        destruct (Hent exp (eget_In _ _ _ G)) as [t0 [Hg He]].
+        destruct (Hent q exp (eget_In _ _ _ G)) as [t0 [Hg He]].
         assert (J : permitted attl gs id p q (w_now (s_world s)) = true).
         { unfold permitted. apply Bool.orb_true_iff. right. unfold justified. apply existsb_exists.
           exists (id, q, t0). split; [exact Hg|]. cbn [fst snd]. rewrite Z.eqb_refl, q_eqb_refl. cbn [andb].
@@ -205,15 +176,13 @@ Proof.
 Qed.
 
 Lemma hcheck_run attl dttl ops :
-  forallb not_move ops = true ->
   forall s gs, inv attl s gs ->
   hcheck attl (s_world s) gs (combine ops (hrun attl dttl s ops)) = (true, true).
 Proof.
-  induction ops as [|o r IH]; intros Hm s gs Hinv; [reflexivity|].
-  cbn [forallb] in Hm. apply Bool.andb_true_iff in Hm. destruct Hm as [Ho Hr].
+  induction ops as [|o r IH]; intros s gs Hinv; [reflexivity|].
   cbn [hrun]. destruct (hstep attl dttl s o) as [s' b] eqn:S. cbn [combine hcheck].
-  pose proof (step_world attl dttl s o) as Hw. pose proof (step_inv attl dttl s gs o Ho Hinv) as Hi.
-  rewrite S in Hw, Hi. cbn [fst snd] in Hw, Hi. rewrite <- Hw. rewrite (IH Hr s' _ Hi).
+  pose proof (step_world attl dttl s o) as Hw. pose proof (step_inv attl dttl s gs o Hinv) as Hi.
+  rewrite S in Hw, Hi. cbn [fst snd] in Hw, Hi. rewrite <- Hw. rewrite (IH s' _ Hi).
   destruct o; try reflexivity.
   pose proof (step_req_ok attl dttl s gs host requestor imp Hinv) as Hq. rewrite S in Hq. cbn [snd] in Hq. rewrite Hq. reflexivity.
 Qed.
@@ -221,8 +190,7 @@ Qed.
 Lemma inv0 attl : inv attl hstate0 [].
 Proof. intros h wid e []. Qed.
 
-(* every request of a history without live moves is decided by the incarnation that owns its host now *)
+(* every request of every history is decided by the incarnation that owns its host now *)
 Theorem decision_of_current_cluster attl dttl ops :
-  forallb not_move ops = true ->
   hcheck attl world0 [] (combine ops (hrun attl dttl hstate0 ops)) = (true, true).
-Proof. intros H. apply (hcheck_run attl dttl ops H hstate0 [] (inv0 attl)). Qed.
+Proof. apply (hcheck_run attl dttl ops hstate0 [] (inv0 attl)). Qed.
